@@ -3725,7 +3725,12 @@ impl XmlUnexpandedEntityReference {
     }
 
     pub fn value(&self) -> error::Result<String> {
-        attr_value_from_name(self.name(), self.context())
+        // White space of the replacement text is normalized inside an attribute value only
+        // (XML 1.0 3.3.3); in content it is character data as it stands.
+        let in_attribute = self
+            .parent_item()
+            .is_some_and(|v| v.as_attribute().is_some());
+        expand_entity(self.name(), self.context(), &mut vec![], in_attribute)
     }
 }
 
@@ -4223,13 +4228,14 @@ fn attribute_name(name: &parser::AttributeName) -> (String, Option<String>) {
 }
 
 fn attr_value_from_name(name: &str, context: &Context) -> error::Result<String> {
-    expand_entity(name, context, &mut vec![])
+    expand_entity(name, context, &mut vec![], true)
 }
 
 fn expand_entity(
     name: &str,
     context: &Context,
     visited: &mut Vec<String>,
+    normalize: bool,
 ) -> error::Result<String> {
     // Well-formedness constraint: No Recursion
     if visited.iter().any(|v| v == name) {
@@ -4249,17 +4255,22 @@ fn expand_entity(
                     16 => char_from_char16(v)?,
                     _ => unreachable!(),
                 };
-                parsed.push_str(normalize_ws(c.to_string().as_str()).as_str());
+                if normalize {
+                    parsed.push_str(normalize_ws(c.to_string().as_str()).as_str());
+                } else {
+                    parsed.push(c);
+                }
             }
             XmlEntityValue::Entity(v) => {
-                let v = expand_entity(v, context, visited)?;
+                let v = expand_entity(v, context, visited, normalize)?;
                 parsed.push_str(v.as_str());
             }
             XmlEntityValue::Parameter(v) => {
                 // Not support parameter entity reference.
                 return Err(error::Error::InvalidData(format!("%{};", v)));
             }
-            XmlEntityValue::Text(v) => parsed.push_str(normalize_ws(v).as_str()),
+            XmlEntityValue::Text(v) if normalize => parsed.push_str(normalize_ws(v).as_str()),
+            XmlEntityValue::Text(v) => parsed.push_str(v),
         }
     }
 
